@@ -513,6 +513,20 @@ for route in ('type', 'parameterized_class'):
         bad.append('class created by %s with x = Number(bounds=(0, 3)) below default 5 exists (default %r)' % (route, PC.param.x.default))
     except (RuntimeError, ValueError):
         pass
+# a Parameter object that was refused once is refused again (and an accepted one may be offered again)
+RA = type('RA', (param.Parameterized,), {'x': param.Number(default=20)})
+RB = type('RB', (RA,), {})
+again = param.Number(bounds=(0, 10))
+for attempt in (1, 2, 3):
+    try:
+        RB.param.add_parameter('x', again)
+        bad.append('attempt %d to add Number(bounds=(0, 10)) below the inherited default 20 was accepted: default %r bounds %r'
+                   % (attempt, RB.param.x.default, RB.param.x.bounds))
+        break
+    except (RuntimeError, ValueError):
+        pass
+    if 'x' in RB.__dict__ or RB.param.x.default != 20 or RB.param.x.bounds is not None:
+        bad.append('after the refused attempt %d the class shows default %r bounds %r' % (attempt, RB.param.x.default, RB.param.x.bounds)); break
 class V(param.Number):
     def _validate(self, val):
         if val == 2.5:
